@@ -130,14 +130,16 @@ fn main() {
 
     // ---- child of an isolated exploration
     if let Some(spec) = child {
-        let parts: Vec<&str> = spec.splitn(5, ':').collect();
+        // ord:k:chunk:resume_from:resume_to:millis:shm_path
+        let parts: Vec<&str> = spec.splitn(7, ':').collect();
         let ord: usize = parts[0].parse().unwrap();
-        let start: u64 = parts[1].parse().unwrap();
-        let stride: u64 = parts[2].parse().unwrap();
-        let shm = parts[3];
-        let ms: u64 = parts[4].parse().unwrap();
+        let k: usize = parts[1].parse().unwrap();
+        let chunk: u64 = parts[2].parse().unwrap();
+        let resume: (u64, u64) = (parts[3].parse().unwrap(), parts[4].parse().unwrap());
+        let ms: u64 = parts[5].parse().unwrap();
+        let shm = parts[6];
         let deadline = Instant::now() + std::time::Duration::from_millis(ms);
-        child_main(&prop.spaces[ord], prop.id, start, stride, shm, deadline);
+        child_main(&prop.spaces[ord], prop.id, k, chunk, resume, shm, deadline);
         return;
     }
 
